@@ -9,7 +9,7 @@ from . import c04, c05
 PROPERTY = 'C11'
 NEED_C = True
 RULE = ('Pairs (plus a third series for matrices) of (length x d) series, d in 1..4, all C01 settings (window, penalty, psi '
-        'forms, constructed max_step, both inner distances); containers: 2-D arrays, list of 2-D arrays, 3-D array, list of '
+        'forms, constructed max_step, both inner distances); containers: 2-D arrays (C-ordered, Fortran-ordered, transposed view of channel-first storage, strided, reversed), list of such arrays, 3-D array, list of '
         'lists of lists (Python). Routines: dtw_ndim.distance(_fast), warping_paths(_fast), warping_path, '
         'distance_matrix(_fast) (serial), ub_euclidean, ed_cc.distance_ndim, use_pruning on/off. Oracle: the univariate '
         'reference DP with d(i,j) = sum_k (x_ik - y_jk)^2 (or its square root); matrices with the C04 predicate, paths with '
@@ -38,6 +38,8 @@ def _case(draw, max_len):
     p = gen.psi4(case['psi'])
     case['psi_matrix'] = min(min(p), max(0, m - 1))
     case['container'] = draw(st.sampled_from(['list-2d', 'list-2d', '3d', 'lists']))
+    # memory layout of every (length x d) array handed to the library
+    case['layout'] = draw(st.sampled_from(['ndarray', 'ndarray', 'F', 'Tview', 'strided', 'reversed']))
     case['keep_int_repr'] = draw(st.booleans())
     case['psi_neg'] = draw(st.booleans())
     case['max_dist'] = None
@@ -59,7 +61,10 @@ def run(case):
     res.nontrivial = d >= 2 and not copies and l1 >= 2 and l2 >= 2
     rkw = gen.settings_kwargs(case, keys=('window', 'penalty', 'psi', 'max_step'))
     refd = ref.ref_dtw(s1, s2, **rkw)
-    a1, a2, a3 = (np.array(s, dtype=np.double) for s in (s1, s2, s3))
+    from . import c20
+    lay = case.get('layout', 'ndarray')
+    res.cls('layout=' + lay)
+    a1, a2, a3 = (c20.make_series(s, lay, d) for s in (s1, s2, s3))
     kw = {'window': case['window'], 'penalty': case['penalty'], 'psi': gen.psi_to_lib(case['psi']),
           'max_step': case['max_step'], 'inner_dist': inner}
     vals = {}
@@ -96,7 +101,9 @@ def run(case):
     # upper bound
     e = ref.ref_ed(s1, s2, inner)
     for name, fn in (('dtw_ndim.ub_euclidean', lambda: dtw_ndim.ub_euclidean(a1, a2, inner_dist=inner)),
-                     ('ed_cc.distance_ndim', lambda: ed_cc.distance_ndim(a1, a2, 0 if inner == 'squared euclidean' else 1))):
+                     # the extension function itself takes the raw buffer (its callers make it C-contiguous first)
+                     ('ed_cc.distance_ndim', lambda: ed_cc.distance_ndim(np.ascontiguousarray(a1), np.ascontiguousarray(a2),
+                                                                         0 if inner == 'squared euclidean' else 1))):
         v, exc = libcall(fn)
         if exc:
             res.fail('%s:%s' % (name, exc), 'raised')
@@ -138,7 +145,7 @@ def run(case):
         elif cont == 'lists' and eng == 'py':
             data = [[list(p) for p in s] for s in S]
         else:
-            data = [np.array(s, dtype=np.double) for s in S]
+            data = [c20.make_series(s, lay, d) for s in S]
         got, exc = libcall(dtw_ndim.distance_matrix, data, ndim=d, compact=True, use_c=(eng == 'c'), parallel=False, **mkw)
         if exc:
             res.fail('%s.distance_matrix[%s]:%s' % (eng, cont, exc), 'raised')
